@@ -4,7 +4,7 @@ import BFL.Model.Fault
 Driver entries for C12 (beliefs instantiated symbolically: `Sym`).
 
   fault <class> <seed> <n> <m> <k> <sub> fz=<bits> me=<bits> pr=<bits> in=<bits> no=<bits> li=<bits>
-     class: kf | ukfa | ukfg | sukf | glik | bootg | boots | gpf-<kf|ukfa|ukfg|sukf>-<g|s>
+     class: kf | ukfa | ukfg | ukfgo | sukf | glik | bootg | boots | gpf-<kf|ukfa|ukfg|sukf>-<g|s>
      optional trailing token reps=<r>: r successive calls on the same object (scripts consumed across calls),
      or ep=<e0>/<e1>/…: one call per epoch, the methods named in e_i unavailable during that whole call;
      alias=1: in-place calls correct(b, b)
@@ -60,6 +60,7 @@ def gaussOf (cls : String) (m k sub : Nat) : Option (Script → Sym → Sym → 
   | "kf" => some (kfCorrect Sym.full)
   | "ukfa" => some (ukfCorrect .additive Sym.full)
   | "ukfg" => some (ukfCorrect .generic Sym.full)
+  | "ukfgo" => some (ukfCorrect .genericOnline Sym.full)
   | "sukf" => some (sukfCorrect (m % sub == 0) (k * (m / sub)) Sym.full)
   | _ => none
 
@@ -108,7 +109,14 @@ def faultLine : P String := do
   let s ← readScript
   let rest ← get
   let alias := rest.contains "alias=1"
-  let rest := rest.filter (fun t => t != "alias=1" && t != "alias=0")
+  -- deco=1: models behind a forwarding decorator (`decorate_transparent`: same answers);
+  -- move=1 / massign=1: the correction is handed over first (`PFCorrObj.moveConstruct` / `moveAssign`)
+  let handed := rest.contains "move=1" || rest.contains "massign=1"
+  let rest := rest.filter (fun t => !["alias=1", "alias=0", "deco=1", "move=1", "massign=1", "degen=1"].contains t)
+  let hand (lk : Script → FR (Option Unit)) (g : Script → Sym → Sym → FR Sym) : PFCorrObj Sym Unit :=
+    let src : PFCorrObj Sym Unit := { lik := lk, gauss := g, models := s, validLikelihood := false, skip := false }
+    let tgt : PFCorrObj Sym Unit := { lik := fun s => ⟨some (), s, []⟩, gauss := fun s p _ => ⟨p, s, []⟩, models := {}, validLikelihood := true, skip := true }
+    if handed then PFCorrObj.moveAssign tgt (PFCorrObj.moveConstruct src) else src
   let (reps, epochs) ← match rest with
     | [] => pure (1, ([] : List Script))
     | [t] => (if t.startsWith "reps=" then
@@ -132,13 +140,18 @@ def faultLine : P String := do
   match cls.splitOn "-" with
   | ["glik"] =>
     go (fun s => let r := gaussLik () s; ((if r.val.isSome then "some" else "none"), logStr r.log, r.script))
-  | ["bootg"] => go (sym (fun s => bootCorrect (gaussLik ()) (fun p _ => Sym.updated p) s Sym.pred))
-  | ["boots"] => go (sym (fun s => bootCorrect (scriptedLik () .boot) (fun p _ => Sym.updated p) s Sym.pred))
+  | ["bootg"] =>
+    let o := hand (gaussLik ()) (fun s p _ => ⟨p, s, []⟩)
+    go (sym (fun s => ({ o with models := s }).bootCorrect (fun p _ => Sym.updated p) Sym.pred))
+  | ["boots"] =>
+    let o := hand (scriptedLik () .boot) (fun s p _ => ⟨p, s, []⟩)
+    go (sym (fun s => ({ o with models := s }).bootCorrect (fun p _ => Sym.updated p) Sym.pred))
   | ["gpf", w, l] =>
     match gaussOf w m k sub, likOf l .gpf with
     | some g, some lk =>
-      if alias then go (sym (fun s => gpfCorrectInPlace g Sym.sampled lk (fun p c _ => Sym.weighed p c) s Sym.pred))
-      else go (sym (fun s => gpfCorrect g Sym.sampled lk (fun p c _ => Sym.weighed p c) s Sym.pred Sym.poison))
+      let o := hand lk g
+      if alias then go (sym (fun s => gpfCorrectInPlace o.gauss Sym.sampled o.lik (fun p c _ => Sym.weighed p c) s Sym.pred))
+      else go (sym (fun s => ({ o with models := s }).gpfCorrect Sym.sampled (fun p c _ => Sym.weighed p c) Sym.pred Sym.poison))
     | _, _ => failure
   | ["sis", b] =>
     match (if b == "bootg" then likOf "g" .boot else if b == "boots" then likOf "s" .boot else none) with
